@@ -410,13 +410,13 @@ Proof.
     destruct (sjoin (br qx) (br qy)) as [r0 k3] eqn:J3. destruct (sjoin (br q) r0) as [r1 k4] eqn:J4.
     cbn [bn bb br bok] in *.
     repeat (apply andb_prop in BOK; let K := fresh "K" in destruct BOK as [BOK K]).
-    subst k0 k1 k2 k3 k4. rename K3 into BOKY. rename K4 into BOKX. rename K5 into IB. rename BOK into BOKC.
+    subst k0 k1 k2 k3 k4. rename K4 into BOKY. rename K5 into BOKX. rename K6 into IB. rename BOK into BOKC.
     pose proof (IH chk r c al ab en s P0 lo KM OK1 T G BOKC) as P1.
     pose proof (facts_sound p ce CERT n chk r c al en s _ SA OK1) as F1.
     pose proof (gexec_tile txt p n c en s T) as T1.
     destruct (gexec n p c en s) as [v1 en1 s1|en1 s1|v1 en1 s1| |]; cbn [bpost res_inv] in *; auto.
     + destruct P1 as (a1 & vt & B1 & G1 & V1). destruct (is_bool_vok _ _ _ _ _ _ _ IB B1 V1) as (-> & bv & ->).
-      unfold qx, qy in *. rewrite B1 in *. cbn [bbind] in *.
+      unfold qx, qy, q in *. rewrite B1 in *. cbn [bbind] in *.
       destruct bv.
       * cbn in F1. destruct F1 as (al1 & JL & (_ & _ & KM1)). rewrite JL in OK2. cbn [bind] in OK2.
         pose proof (IH chk r x al1 a1 en1 s1 P0 lo KM1 OK2 T1 G1 BOKX) as P2.
@@ -451,7 +451,7 @@ Proof.
     pose proof (gexec_tile txt p n c en s T) as T1.
     destruct (gexec n p c en s) as [v1 en1 s1|en1 s1|v1 en1 s1| |]; cbn [bpost res_inv] in *; auto.
     + destruct P1 as (a1 & vt & B1 & G1 & V1). destruct (is_bool_vok _ _ _ _ _ _ _ IB B1 V1) as (-> & bv & ->).
-      unfold qb in *. rewrite B1 in *. cbn [bbind option_map fst] in *.
+      unfold qb, q in *. rewrite B1 in *. cbn [bbind option_map fst] in *.
       destruct bv.
       * cbn in F1. destruct F1 as (al1 & JL & (_ & _ & KM1)).
         assert (OKB' : ok (AN chk r b al1) = true) by (rewrite JL in OKB; exact OKB).
@@ -480,7 +480,7 @@ Proof.
     pose proof (IH chk r x al ab en s P0 lo KM OK T G BOK) as P1.
     destruct (gexec n p x en s) as [v1 en1 s1|en1 s1|v1 en1 s1| |]; cbn [bpost] in *; auto.
     + destruct P1 as (a1 & vt & B1 & G1 & V1). destruct (is_bool_vok _ _ _ _ _ _ _ IB B1 V1) as (-> & BV).
-      rewrite B1 in J1. cbn [option_map fst] in J1. destruct (sjoin_l _ _ _ _ _ _ _ _ J1 eq_refl G1) as (a3 & E3 & G3). eauto.
+      unfold q in *. rewrite B1 in J1. cbn [option_map fst] in J1. destruct (sjoin_l _ _ _ _ _ _ _ _ J1 eq_refl G1) as (a3 & E3 & G3). eauto.
     + destruct P1 as (a1 & B1 & G1 & BV). destruct (sjoin_r _ _ _ _ _ _ _ _ J1 B1 G1) as (a3 & E3 & G3). eauto.
   - (* ESet *)
     cbn [bn bb br bok] in *.
